@@ -248,14 +248,19 @@ class _Simu(_IObserver, _params.Updatable, ABC):
 
         K, C, M, _ = self.Get_K_C_M_F(problemType)
 
-        reaction = np.zeros(K.shape[0], dtype=float)
+        u = self._Get_u_n(problemType)
+        # the assembled system may carry the rows and columns of Lagrange multipliers (connections
+        # between beams) after those of the dofs: the reaction is taken on the dofs
+        Ndof = u.size
 
-        reaction[dofs] = K[dofs] @ self._Get_u_n(problemType)
+        reaction = np.zeros(Ndof, dtype=float)
+
+        reaction[dofs] = K[dofs, :Ndof] @ u
         if self.algo == AlgoType.parabolic:
-            reaction[dofs] += C[dofs] @ self._Get_v_n(problemType)
+            reaction[dofs] += C[dofs, :Ndof] @ self._Get_v_n(problemType)
         elif self.algo in AlgoType.Get_Hyperbolic_Types():
-            reaction[dofs] += C[dofs] @ self._Get_v_n(problemType)
-            reaction[dofs] += M[dofs] @ self._Get_a_n(problemType)
+            reaction[dofs] += C[dofs, :Ndof] @ self._Get_v_n(problemType)
+            reaction[dofs] += M[dofs, :Ndof] @ self._Get_a_n(problemType)
 
         if MPI_SIZE > 1:
             return Reduce_sum(reaction)
